@@ -239,3 +239,101 @@ func TestReplayC02PathDenotation(t *testing.T) {
 	}
 	t.Logf("paths=%d of %d, constraints checked=%d, disagreements=%d", len(paths), len(all), checked, bad)
 }
+
+// Second part: the constraint kinds that look at the VALUES a path denotes (not only at how many there are): containsAll,
+// containsSome, in and exactCount, on every path of one and two steps (55 paths) from the three focus nodes, with value lists
+// derived from the denotation D computed by the independent evaluator: containsAll D holds, containsAll D + a stranger fails
+// (when D is not empty), containsSome {one of D} holds, containsSome {a stranger} fails (when D is not empty), in D holds,
+// in D minus one value fails, exactCount |D| holds, exactCount |D|+1 fails (counts only where the recorded double count cannot
+// arise); and two constraints of one kind on different paths under one `or` (fails exactly when both fail).
+func TestReplayC02ValueKinds(t *testing.T) {
+	all := c02AllPaths()[:55]
+	data := c02Data()
+	iri := func(n string) string { return "http://example.org/" + n }
+	list := func(ns []string) string {
+		var q []string
+		for _, n := range ns {
+			q = append(q, `"`+iri(n)+`"`)
+		}
+		return "[" + strings.Join(q, ", ") + "]"
+	}
+	type want struct {
+		desc string
+		fail bool
+	}
+	const batch = 4
+	for start := 0; start < len(all); start += batch {
+		end := start + batch
+		if end > len(all) {
+			end = len(all)
+		}
+		var names, vals []string
+		wants := map[string]want{}
+		add := func(name, focus, body, desc string, fail bool) {
+			names = append(names, name)
+			wants[name] = want{desc, fail}
+			vals = append(vals, fmt.Sprintf("  %s:\n    targetClass: ex.T%s\n    message: m\n%s", name, focus, body))
+		}
+		leaf := func(path, constraint string) string {
+			return "    propertyConstraints:\n      " + path + ":\n        " + constraint + "\n"
+		}
+		for i, p := range all[start:end] {
+			for _, f := range []string{"1", "2", "3"} {
+				dm := p.eval(map[string]bool{"n" + f: true})
+				var d []string
+				for n := range dm {
+					d = append(d, n)
+				}
+				sort.Strings(d)
+				id := fmt.Sprintf("k%d_%s", start+i, f)
+				ps := p.String()
+				from := " on " + ps + " from n" + f + " (denotation " + fmt.Sprint(d) + ")"
+				if len(d) > 0 {
+					add(id+"_all", f, leaf(ps, "containsAll: "+list(d)), "containsAll of exactly the denoted values"+from, false)
+					add(id+"_allx", f, leaf(ps, "containsAll: "+list(append(append([]string{}, d...), "stranger"))), "containsAll of the denoted values and a stranger"+from, true)
+					add(id+"_some", f, leaf(ps, "containsSome: "+list(d[:1])), "containsSome of one denoted value"+from, false)
+					add(id+"_somex", f, leaf(ps, "containsSome: "+list([]string{"stranger"})), "containsSome of a stranger only"+from, true)
+					add(id+"_in", f, leaf(ps, "in: "+list(d)), "in the denoted values"+from, false)
+					add(id+"_inx", f, leaf(ps, "in: "+list(append([]string{"stranger"}, d[1:]...))), "in the denoted values but one"+from, true)
+				}
+				if c02Class(p) == "other" {
+					add(id+"_exact", f, leaf(ps, fmt.Sprintf("exactCount: %d", len(d))), "exactCount of the number of denoted values"+from, false)
+					add(id+"_exactx", f, leaf(ps, fmt.Sprintf("exactCount: %d", len(d)+1)), "exactCount of one more than the number of denoted values"+from, true)
+				}
+				// two constraints of one kind on different paths in one body
+				other := all[(start+i+7)%len(all)]
+				om := other.eval(map[string]bool{"n" + f: true})
+				if len(d) > 0 && len(om) > 0 {
+					var od []string
+					for n := range om {
+						od = append(od, n)
+					}
+					sort.Strings(od)
+					item := func(path, l string) string {
+						return "      - propertyConstraints:\n          " + path + ":\n            containsSome: " + l + "\n"
+					}
+					add(id+"_or_ok", f, "    or:\n"+item(ps, list([]string{"stranger"}))+item(other.String(), list(od[:1])), "or of containsSome {stranger} on "+ps+" and containsSome {a denoted value} on "+other.String()+" from n"+f, false)
+					add(id+"_or_bad", f, "    or:\n"+item(ps, list([]string{"stranger"}))+item(other.String(), list([]string{"stranger"})), "or of containsSome {stranger} on "+ps+" and on "+other.String()+" from n"+f, true)
+					add(id+"_or_ok2", f, "    or:\n"+item(ps, list(d[:1]))+item(other.String(), list([]string{"stranger"})), "or of containsSome {a denoted value} on "+ps+" and containsSome {stranger} on "+other.String()+" from n"+f, false)
+				}
+			}
+		}
+		profile := "#%Validation Profile 1.0\nprofile: P\nprefixes:\n  ex: http://example.org/\nviolation:\n  - " + strings.Join(names, "\n  - ") + "\nvalidations:\n" + strings.Join(vals, "")
+		rep, err := Validate(profile, data, false, nil)
+		if err != nil {
+			t.Errorf("C02 violated: value kinds on the paths %v: no report: %v", all[start:end], strings.Split(err.Error(), "\n")[0])
+			continue
+		}
+		var keys []string
+		for n := range wants {
+			keys = append(keys, n)
+		}
+		sort.Strings(keys)
+		for _, n := range keys {
+			w := wants[n]
+			if got := strings.Contains(rep, `"sourceShapeName": "`+n+`"`); got != w.fail {
+				t.Errorf("C02 violated: %s: reported=%v, by the denotation it must be %v", w.desc, got, w.fail)
+			}
+		}
+	}
+}
